@@ -29,6 +29,8 @@ Requests (one per line; `W` = worker index):
                                          given (a permutation: several processes expired at once)          → ok | not-a-permutation
   (setqueue W pid…)                      re-order the run queue (same elements) — `HashSet` iteration order of
                                          simultaneously expired processes is not modelled          → ok | not-a-permutation
+  (registry W)                           the worker's await registry (for the hooks Worker::verif_awaited … once they exist)
+                                         → awaited=(…) for=((target (awaiter…))…)
   (state W)                              → queue=(…) selecting=(…) spawning=(…) effecting=(…) | pid res aw af mb sel | …
 EVENTS := [awaiter (t none|ok|Class)…]…
 -/
@@ -250,6 +252,14 @@ def c15Step (s : St) (req : List Sx) : St × String :=
         else (s, "not-a-permutation")
       | none => (s, "bad-request")
     | _, _ => (s, "bad-request")
+  | [.list [.atom "registry", wi]] =>
+    match wi.asNat with
+    | some i =>
+      (s, match s.ws[i]? with
+        | some w => s!"awaited={renderNats (sortBy id w.awaited)} for=(" ++
+            " ".intercalate ((sortBy (·.1) w.awaitersFor).map (fun (t, as) => s!"({t} {renderNats as})")) ++ ")"
+        | none => "bad-request")
+    | none => (s, "bad-request")
   | [.list [.atom "state", wi]] =>
     match wi.asNat with
     | some i => (s, match s.ws[i]? with | some w => renderWorker w | none => "bad-request")
